@@ -206,6 +206,54 @@ def replay_history(job):
     return canon_state(mgr.database)
 
 
+def history_subtree(job):
+    """worker: every operation sequence below a given prefix, executed step by step on ONE
+    manager object (copied at each branching point, hidden state included) next to the list
+    model - histories, not states, are enumerated here, so state kept outside the record list
+    cannot hide behind the state de-duplication of the BFS"""
+    init, ops, prefix, depth = job["init"], [tuple(tuple(x) if isinstance(x, list) else x for x in o) for o in job["ops"]], job["prefix"], job["depth"]
+    init_pairs = duplicate_pairs(init)
+    bad = []
+    count = [0]
+
+    def step(mgr, model, hist, op):
+        obs = impl_step(mgr, op)
+        want_state, want_obs = model_step(copy.deepcopy(model), op)
+        count[0] += 1
+        raised = isinstance(obs, list) and obs[:1] == ["raised"]
+        here = []
+        if raised:
+            here.append(["raises", op[0], obs[1]])
+        if op[0] in ("add", "bulk") and obs != want_obs and not raised:
+            here.append(["add-verdict", want_obs] if op[0] == "add" else ["bulk-rejected-list"])
+        if canon_state(mgr.database) != canon_state(want_state):
+            here.append([{"add": "add-effect", "bulk": "bulk-effect", "remove": "remove-effect"}[op[0]]])
+        here += [k for k, _ in invariant(mgr.database, init_pairs)]
+        for k in here:
+            if len(bad) < 40:
+                bad.append({"key": ["history"] + k, "hist": [list(o) for o in hist + [op]]})
+        # continue from the implementation's own state so that one divergence is reported once
+        return copy.deepcopy(mgr.database)
+
+    def rec(mgr, model, hist, d):
+        if d == 0:
+            return
+        for op in ops:
+            m2 = copy.deepcopy(mgr)
+            new_model = step(m2, model, hist, op)
+            rec(m2, new_model, hist + [op], d - 1)
+
+    mgr = fresh_manager(init)
+    model = copy.deepcopy(init)
+    hist = []
+    for op in prefix:
+        op = tuple(tuple(x) if isinstance(x, list) else x for x in op)
+        model = step(mgr, model, hist, op)
+        hist.append(op)
+    rec(mgr, model, hist, depth - len(prefix))
+    return {"steps": count[0], "bad": bad}
+
+
 def load_db(rel):
     p = os.path.join(ROOT, rel)
     with open(p, "rb") as f:
@@ -264,6 +312,21 @@ def run(tier, seed):
     small = [("H2O", "O"), ("C2H6O", "CCO"), ("H4N+", "[NH4+]")]
     small_ops = [("add", f, s) for f, s in small] + [("remove", f) for f, _ in small] + [("bulk", small[0], small[1]), ("bulk", small[2], small[2])]
     bfs("empty/add-remove", [], small_ops, 5 if tier == "quick" else 7, seed, res=res, counters=counters)
+    # all HISTORIES (not states) over the small alphabet on single objects
+    hdepth = 6 if tier == "quick" else 7
+    hjobs = [{"init": [], "ops": [list(o) for o in small_ops[:6]], "prefix": [list(a), list(b)], "depth": hdepth}
+             for a in small_ops[:6] for b in small_ops[:6]]
+    hres = pmap("checks.c19:history_subtree", hjobs, chunk=1, seed=seed, timeout=7200)
+    hkeys = {}
+    for j, r in zip(hjobs, hres):
+        counters["transitions"] += r["steps"]
+        counters["replayed"] += r["steps"]
+        for b in r["bad"]:
+            k = json.dumps(b["key"])
+            hkeys[k] = hkeys.get(k, 0) + 1
+            if hkeys[k] <= 5:
+                res.add(Violation("history", {"start": "empty", "history": b["hist"]}, None, None, b["key"],
+                                  "[single object] after {}: {}".format(b["hist"][:-1], b["key"])))
     shipped = {
         "rules_manager": load_db("synrbl/SynRuleImputer/rules_manager.json.gz"),
         "automated_rules": load_db("Data/Rules/automated_rules.json.gz"),
@@ -293,7 +356,7 @@ def run(tier, seed):
         "rule": "BFS over ordered record lists; alphabet = add of 8 compounds (valid, invalid, same formula, same "
                 "SMILES, charged, salt, heavy element, empty string), add_entries of every ordered pair, remove of every "
                 "formula and an absent one; every transition executes the real method and is compared with a list model; "
-                "invariant evaluated in every state",
+                "invariant evaluated in every state; additionally every operation sequence of length <= 6 (thorough 7) over 3 adds + 3 removes is executed on single objects",
         "exhaustive": True,
     }
     res.assumptions = ["a RuleImputeManager has no state besides its record list (checked by replaying every state's "
@@ -319,6 +382,9 @@ def replay(v):
         return out
     # replay the history on one object, comparing with the model at every step
     mgr = fresh_manager(init, c.get("frame", False))
+    if v.sub == "history":
+        r = history_subtree({"init": init, "ops": [], "prefix": c["history"], "depth": len(c["history"])})
+        return [Violation(v.sub, c, None, None, b["key"], "reproduced") for b in r["bad"] if b["key"] == v.key and b["hist"] == c["history"]][:1]
     if v.sub == "history-replay":
         # state-based search vs one object: re-run both and compare
         state = copy.deepcopy(init)
